@@ -559,12 +559,56 @@ func genC09(g *Gen, tier string, idx int) *wire.Scenario {
 		env.History[0].Entries = es
 		sc.Env = env
 	}
+	abandoned := n >= 1 && g.P(14)
+	var abandonedScript []wire.Token
+	if abandoned {
+		// an entry walked to, edited and left without being accepted, then a search from the line being typed
+		// with a text that matches the entry as it is stored: the search shows what is stored, not the abandoned edit
+		env.History[0].Kind = "memory"
+		env.History[0].FailGet = 0
+		sc.Env = env
+		es := env.History[0].Entries
+		j := g.N(len(es))
+		target := []rune(es[len(es)-1-j])
+		x.Typed = string(target[:g.Range(1, min(2, len(target)))])
+		for _, r := range x.Typed {
+			if r > 0x7e || r <= ' ' {
+				x.Typed = "" // (not a text the keyboard of these sessions can type)
+			}
+		}
+		up, down := g.Cat.ShortSeqFor(km, "previous-history"), g.Cat.ShortSeqFor(km, "next-history")
+		for i := 0; i <= j; i++ {
+			abandonedScript = append(abandonedScript, tok(up, "previous-history"))
+		}
+		if g.P(50) {
+			abandonedScript = append(abandonedScript, tok(g.Cat.ShortSeqFor(km, "kill-whole-line"), "entry-edit"))
+		} else {
+			for i := 0; i < g.Range(1, 3); i++ {
+				abandonedScript = append(abandonedScript, tok(g.Cat.ShortSeqFor(km, "backward-delete-char"), "entry-edit"))
+			}
+		}
+		for i := 0; i < g.Range(0, 3); i++ {
+			abandonedScript = append(abandonedScript, tok(string(Pick(g, []rune("rmq -"))), "entry-edit"))
+		}
+		if g.P(70) {
+			for i := 0; i <= j; i++ {
+				abandonedScript = append(abandonedScript, tok(down, "next-history"))
+			}
+		}
+		for i := 0; i < g.Range(1, 3); i++ {
+			cmd := Pick(g, []string{"history-search-backward", "history-substring-search-backward", "history-search-backward", "history-search-forward"})
+			if seq := g.Cat.ShortSeqFor(km, cmd); seq != "" {
+				abandonedScript = append(abandonedScript, tok(seq, cmd))
+			}
+		}
+	}
 	for _, r := range x.Typed {
 		sc.Script = append(sc.Script, tok(string(r), "typed"))
 	}
+	sc.Script = append(sc.Script, abandonedScript...)
 	// the point is not always at the end of what was typed: an edit in the middle (which saves a
 	// state of the line with the point there) and motions afterwards (which do not)
-	if len(x.Typed) > 1 && g.P(35) {
+	if len(x.Typed) > 1 && g.P(35) && !abandoned {
 		back := g.Range(1, len([]rune(x.Typed))-1)
 		for i := 0; i < back; i++ {
 			sc.Script = append(sc.Script, tok(g.Cat.ShortSeqFor(km, "backward-char"), "point-move"))
@@ -691,6 +735,8 @@ func execC09(x *Ctx, sc *wire.Scenario) *wire.Result {
 	variants := map[string]bool{xx.Typed: true} // legitimate in-progress texts
 	var lastInProg *sim.Snap
 	var inProgSnaps []*sim.Snap
+	edited := map[int]string{}     // entries (by distance from the newest) edited while shown, and what they show now
+	entryEdits := map[string]bool{} // every text such an edit left
 	isNav := func(cmd string) (walk, search bool) {
 		for _, w := range walkCmds {
 			if w == cmd {
@@ -750,6 +796,13 @@ func execC09(x *Ctx, sc *wire.Scenario) *wire.Result {
 			variants[after.Line] = true
 			continue
 		}
+		if t.Cmd == "entry-edit" && exact && pos >= 0 && after.Local == "" && before.Local == "" {
+			// an edit of a stored entry that is being shown: the line keeps it while the call lasts (walking
+			// back re-shows it), the source does not, and no search may produce it
+			edited[pos] = after.Line
+			entryEdits[after.Line] = true
+			continue
+		}
 		if !walk && !search {
 			// incremental search keys and exits: the model position is unknown afterwards;
 			// whatever a non-navigation key leaves in the buffer is an edit of the user
@@ -783,6 +836,9 @@ func execC09(x *Ctx, sc *wire.Scenario) *wire.Result {
 			want := inProgress
 			if pos >= 0 {
 				want = entries[n-1-pos]
+				if e, ok := edited[pos]; ok {
+					want = e
+				}
 			}
 			res.Counters["checked:walk"]++
 			if after.Line != want {
@@ -798,8 +854,15 @@ func execC09(x *Ctx, sc *wire.Scenario) *wire.Result {
 		// search commands (or walks after the position became unknown)
 		exact = false
 		res.Counters["checked:search"]++
-		if variants[after.Line] || after.Line == before.Line {
+		if after.Line == before.Line {
 			continue
+		}
+		if search && strings.Contains(t.Cmd, "search") && !hadIsearch && !staleBefore && entryEdits[after.Line] && !isEntry(after.Line) && !variants[after.Line] {
+			return violation(res, "MISMATCH", "C09.search-matches", "search-shows-an-abandoned-edit:"+t.Cmd,
+				fmt.Sprintf("%s put %q in the buffer: that is what an entry was edited into earlier in this call and then left, never accepted; the stored entries are %q", t.Cmd, after.Line, entries))
+		}
+		if variants[after.Line] || ((walk || !strings.Contains(t.Cmd, "search")) && entryEdits[after.Line]) {
+			continue // (a walk re-shows an entry as it was edited while this call lasts)
 		}
 		if staleBefore {
 			res.Counters["skipped:search_after_isearch_exit"]++
